@@ -61,7 +61,7 @@ def rule_injective(ctx):
 RULES = [
     ("DERIVE", rule_derive, 16),
     ("KEY-INV", lambda ctx: None, 40),
-    ("AGREE-INJ", rule_injective, 19),
+    ("AGREE-INJ", rule_injective, 11),
     ("TYPE-INJ", lambda ctx: None, 7),
 ]
 
